@@ -293,7 +293,7 @@ def run_group(scratch, cfg_name, harnesses, jobs=None, extra_args=None):
             "checks": len(checks), "passed": passed, "covers": covers,
             "failed_checks": [_fmt_check(c) for c in failed],
             "wall_s": round(r.get("duration_ms", 0) / 1000.0, 2),
-            "solver_s": round(stats.get(h.qualified, {}).get("cbmc_stats", {}).get("runtime_decision_procedure_s", 0.0), 3),
+            "solver_s": round((((stats.get(h.qualified) or {}).get("cbmc_stats") or {}).get("runtime_decision_procedure_s") or 0.0), 3),
             "stubs": stubs_seen.get(h.qualified, []),
         }
         kstatus = r.get("status", "")
